@@ -1299,7 +1299,9 @@ def gen_mega_cases(ctx, side, quick):
     the control (thorough tier).  Messages are told apart by fill character and size; descriptions are compact (`fill`), so a
     replay of such a case is a few hundred bytes."""
     rng = ctx.rng
-    totals = [rng.choice(MEGA_TOTALS_QUICK)] if quick else MEGA_TOTALS * 2
+    # quick: one stream of 1.2 - 2 MiB per protocol, and one beyond 4 MiB for one of the two protocols (which one: drawn per run)
+    big_side = ctx.cov.setdefault('mega_beyond_4MiB_for', rng.choice(['soup', 'fix']))
+    totals = ([rng.choice(MEGA_TOTALS_QUICK)] + ([MEGA_TOTALS[4]] if big_side == side.name else [])) if quick else MEGA_TOTALS * 2
     for total in totals:
         shape = rng.choice(['max', 'max', 'mixed'] if quick else ['max', 'mixed', 'mixed', 'few-huge'])
         descs, size_sum, i = [], 0, 0
